@@ -343,11 +343,43 @@ func (b bareFile) Close() error                      { return b.f.Close() }
 type FileCase struct {
 	Helper string `json:"helper"`
 	Dir    bool   `json:"dir"`
+	// Variant selects boundary arguments (same-size / zero / larger Truncate, empty buffers, the three Seek origins) and
+	// RO opens the regular file read-only: a fallback must not answer from the arguments alone
+	Variant int  `json:"variant,omitempty"`
+	RO      bool `json:"ro,omitempty"`
 }
 
 var fileHelpers = []string{"chmod", "chown", "chtimes", "readat", "write", "writeat", "readdir", "seek", "sync", "truncate"}
 
-func callFileHelper(helper string, f hackpadfs.File) error {
+func callFileHelper(helper string, f hackpadfs.File) error { return callFileHelperV(helper, f, 0) }
+
+func callFileHelperV(helper string, f hackpadfs.File, variant int) error {
+	if variant > 0 {
+		switch helper {
+		case "truncate":
+			return hackpadfs.TruncateFile(f, []int64{1, 5, 0, 9}[variant%4]) // 5 = the file's current size
+		case "seek":
+			_, err := hackpadfs.SeekFile(f, 0, []int{io.SeekStart, io.SeekCurrent, io.SeekEnd, io.SeekCurrent}[variant%4])
+			return err
+		case "readat":
+			_, err := hackpadfs.ReadAtFile(f, make([]byte, []int{2, 0, 5, 0}[variant%4]), int64([]int{0, 0, 5, 5}[variant%4]))
+			if err == io.EOF {
+				err = nil
+			}
+			return err
+		case "write":
+			_, err := hackpadfs.WriteFile(f, [][]byte{[]byte("x"), {}, []byte("hello"), {}}[variant%4])
+			return err
+		case "writeat":
+			_, err := hackpadfs.WriteAtFile(f, [][]byte{[]byte("x"), {}, []byte("x"), {}}[variant%4], int64([]int{0, 0, 5, 5}[variant%4]))
+			return err
+		case "readdir":
+			_, err := hackpadfs.ReadDirFile(f, []int{-1, 0, 1, 100}[variant%4])
+			return err
+		case "chmod":
+			return hackpadfs.ChmodFile(f, []hackpadfs.FileMode{0o600, 0o644, 0, 0o777}[variant%4]) // 0644 = the current mode
+		}
+	}
 	switch helper {
 	case "chmod":
 		return hackpadfs.ChmodFile(f, 0o600)
@@ -394,7 +426,11 @@ func checkFile(inner string, fc FileCase) (string, string) {
 		if fc.Dir {
 			f, err = e.fs.Open(name)
 		} else {
-			f, err = hackpadfs.OpenFile(e.fs, name, hackpadfs.FlagReadWrite, 0)
+			flag := hackpadfs.FlagReadWrite
+			if fc.RO {
+				flag = hackpadfs.FlagReadOnly
+			}
+			f, err = hackpadfs.OpenFile(e.fs, name, flag, 0)
 		}
 		if err != nil {
 			panic(err)
@@ -405,7 +441,7 @@ func checkFile(inner string, fc FileCase) (string, string) {
 	before, _ := ops.SnapFS(e.fs)
 	bare := open()
 	var berr error
-	pan, hung := vf.Guard(func() { berr = callFileHelper(fc.Helper, bareFile{bare}) })
+	pan, hung := vf.Guard(func() { berr = callFileHelperV(fc.Helper, bareFile{bare}, fc.Variant) })
 	_ = bare.Close()
 	if pan != "" || hung {
 		return base + ":crash", fmt.Sprintf("%s on a bare file: %s hung=%v", fc.Helper, pan, hung)
@@ -546,10 +582,17 @@ func TestFileHelpers(t *testing.T) {
 	for _, inner := range []string{"mem", "osfs"} {
 		for _, h := range fileHelpers {
 			for _, dir := range []bool{false, true} {
-				cases = append(cases, struct {
-					inner string
-					fc    FileCase
-				}{inner, FileCase{Helper: h, Dir: dir}})
+				for variant := 0; variant < 4; variant++ {
+					for _, ro := range []bool{false, true} {
+						if dir && ro {
+							continue
+						}
+						cases = append(cases, struct {
+							inner string
+							fc    FileCase
+						}{inner, FileCase{Helper: h, Dir: dir, Variant: variant, RO: ro}})
+					}
+				}
 			}
 		}
 	}
